@@ -723,7 +723,7 @@ def explore_parallel(tiny, tmproot, cap, nproc=NCPU):
     rnd = 0
     with ProcessPoolExecutor(max_workers=nproc) as ex:
         out = []
-        for rs, left in ex.map(_explore_job, [(base, os.path.join(tmproot, f"x{i}"), min(cap, 16), None) for i, base in enumerate(tiny)], timeout=1800):
+        for rs, left in ex.map(_explore_job, [(base, os.path.join(tmproot, f"x{i}"), min(cap, 16), None) for i, base in enumerate(tiny)], timeout=1800 + cap):
             out.append({"runs": rs, "frontier": left})
         while any(o["frontier"] and len(o["runs"]) < cap for o in out) and rnd < 40:
             rnd += 1
@@ -736,7 +736,7 @@ def explore_parallel(tiny, tmproot, cap, nproc=NCPU):
                 o["frontier"] = []
                 for j, part in enumerate(parts):
                     jobs.append((i, (tiny[i], os.path.join(tmproot, f"x{i}_{rnd}_{j}"), max(1, -(-budget // len(parts))), part)))
-            for (i, _), (rs, left) in zip(jobs, ex.map(_explore_job, [j[1] for j in jobs], timeout=1800)):
+            for (i, _), (rs, left) in zip(jobs, ex.map(_explore_job, [j[1] for j in jobs], timeout=1800 + cap)):      # a guard against a hung pool, scaled with the budget
                 out[i]["runs"] += rs
                 out[i]["frontier"] += left
     return [(o["runs"], not o["frontier"]) for o in out]
